@@ -87,3 +87,8 @@ Definition checked_funcname_ref (f_replace_all : bytes -> bytes -> bytes -> byte
 (* the two width setters: a value outside the range leaves the setting as it is *)
 Definition set_level_output_width_ref (cur width : Z) : Z := if (0 <=? width) && (width <=? 5) then width else cur.
 Definition set_message_minimal_width_ref (cur w : Z) : Z := if 16 <=? w then w else cur.
+
+(* the flag word *)
+Definition is_any_bits_set_ref (flags f : Z) : bool := negb (Z.land flags f =? 0).
+Definition is_all_bits_set_ref (flags f : Z) : bool := Z.land flags f =? f.
+Definition add_flags_ref (flags : Z) (fs : list Z) : Z := fold_left Z.lor fs flags.
